@@ -9,7 +9,7 @@ for spec in sys.argv[2:]:
     name, _, props = spec.partition(':')
     d = os.path.join(V, 'seeded', name); meta = json.load(open(os.path.join(d, 'meta.json')))
     props = props.split('+') if props else [meta['property']]
-    subprocess.run(['git', '-C', wt, 'checkout', '--', '.'], check=True)
+    subprocess.run(['git', '-C', wt, 'reset', '-q', '--hard', 'HEAD'], check=True)   # (--3way stages its result: restore index AND tree)
     r = subprocess.run(['git', '-C', wt, 'apply', os.path.join(d, 'patch.diff')], capture_output=True, text=True)
     if r.returncode != 0:
         r = subprocess.run(['git', '-C', wt, 'apply', '--3way', os.path.join(d, 'patch.diff')], capture_output=True, text=True)
@@ -19,11 +19,11 @@ for spec in sys.argv[2:]:
     for p in props:
         env = dict(os.environ, VERIF_REPO=wt)
         o = subprocess.run([sys.executable, os.path.join(V, 'symir', 'run.py'), p, '--tier', os.environ.get('TIER', 'quick'), '--no-evidence'], capture_output=True, text=True, env=env, cwd=V)
-        viol = re.findall(r'obligation (\S+):L(\d+)', o.stdout)
+        viol = re.findall(r'obligation (\S+):L(-?\d+)', o.stdout)
         errs = re.findall(r'^ERROR (\S+) (\S+):', o.stdout, re.M)
         det += ['%s:%s' % (p, ob) for ob, _ in viol]
         runs.append('%s rc=%d violations=%s errors=%s' % (p, o.returncode, sorted(set('%s:L%s' % v for v in viol)), errs))
-    subprocess.run(['git', '-C', wt, 'checkout', '--', '.'], check=True)
+    subprocess.run(['git', '-C', wt, 'reset', '-q', '--hard', 'HEAD'], check=True)
     meta['detected_by'] = sorted(set(det))
     meta['detection_run'] = 'tools/mutant_matrix.py (VERIF_REPO=<worktree with the patch>, %s tier): ' % os.environ.get('TIER', 'quick') + '; '.join(runs)
     json.dump(meta, open(os.path.join(d, 'meta.json'), 'w'), indent=1)
